@@ -313,6 +313,25 @@ func c19(x *mon.Ctx) {
 	add("baseline", "forged-quote", "", 2, -1, false, "-in", forgedf, "-trusted_roots", rootf)
 	add("baseline", "unparsable-quote", "", 1, 2, false, "-in", garbagef, "-trusted_roots", rootf)
 	add("baseline", "missing-quote-file", "", 1, -1, false, "-in", filepath.Join(dir, "nope.bin"), "-trusted_roots", rootf)
+	{ // quotes that fail verification because their certificate chain cannot even be taken apart: exit 2 whatever the verbosity
+		cd := append([]byte{}, quote...)
+		i := bytes.Index(cd, []byte("-----BEGIN CERTIFICATE-----"))
+		cd[i+len("-----BEGIN CERTIFICATE-----")+40] = '!' // not base64
+		chainDamaged := write("chain-damaged.bin", cd)
+		cd2 := append([]byte{}, quote...)
+		j := bytes.LastIndex(cd2, []byte("-----BEGIN CERTIFICATE-----"))
+		cd2[j+6] = 'X'
+		rootBlockRenamed := write("root-block-renamed.bin", cd2)
+		for _, v := range []string{"", "-verbosity=1", "-verbosity=2"} {
+			for name, f := range map[string]string{"chain-base64-damaged": chainDamaged, "chain-block-renamed": rootBlockRenamed, "forged-quote": forgedf} {
+				args := []string{"-in", f, "-trusted_roots", rootf}
+				if v != "" {
+					args = append(args, v)
+				}
+				add("baseline", name+"/"+v, "", 2, -1, false, args...)
+			}
+		}
+	}
 	add("inform", "proto", "", 0, -1, true, "-in", qproto, "-inform", "proto", "-trusted_roots", rootf)
 	add("inform", "textproto", "", 0, -1, true, "-in", qtext, "-inform", "textproto", "-trusted_roots", rootf)
 	add("inform", "bin-given-proto-file", "", 1, 2, false, "-in", qproto, "-inform", "bin", "-trusted_roots", rootf)
@@ -387,9 +406,23 @@ func c19(x *mon.Ctx) {
 	add("bundle", "missing-file", "", 1, -1, false, "-in", qf, "-trusted_roots", filepath.Join(dir, "nope.pem"))
 	add("bundle", "empty-file", "", 1, -1, false, "-in", qf, "-trusted_roots", emptyf)
 	add("bundle", "directory", "", 1, -1, false, "-in", qf, "-trusted_roots", dir)
+	intelf := write("intel.bin", intelCos113)
+	{ // -trusted_roots naming directories (without any bundle in them, with bundles under other names): a root of trust that lists
+		// nothing is refused — never replaced by the built-in root (the Intel sample would verify under that)
+		ed := filepath.Join(dir, "empty-roots-dir")
+		cd := filepath.Join(dir, "crt-roots-dir")
+		_ = os.MkdirAll(ed, 0o755)
+		_ = os.MkdirAll(cd, 0o755)
+		rb, _ := os.ReadFile(rootf)
+		_ = os.WriteFile(filepath.Join(cd, "roots.crt"), rb, 0o644)
+		_ = os.WriteFile(filepath.Join(cd, "README"), []byte("bundles live here\n"), 0o644)
+		for _, v := range []struct{ name, val string }{{"empty-directory", ed}, {"directory-of-crt-files", cd}, {"two-empty-directories", ed + "," + ed}, {"empty-directory-slash", ed + "/"}} {
+			add("bundle", v.name+"/intel-sample", "", 1, 2, false, "-in", intelf, "-trusted_roots", v.val)
+			add("bundle", v.name+"/generated-quote", "", 1, 2, false, "-in", qf, "-trusted_roots", v.val)
+		}
+	}
 	add("bundle", "wrong-and-right", "", 0, -1, true, "-in", qf, "-trusted_roots", wrongRootf+","+rootf)
 	add("bundle", "right-and-empty", "", 1, -1, false, "-in", qf, "-trusted_roots", rootf+","+emptyf)
-	intelf := write("intel.bin", intelCos113)
 	add("bundle", "intel-sample-embedded-root", "", 0, -1, true, "-in", intelf)
 	add("bundle", "intel-sample-generated-root", "", 2, -1, false, "-in", intelf, "-trusted_roots", rootf)
 	{ // config-file bundles vs flag bundles
@@ -726,6 +759,15 @@ func c19(x *mon.Ctx) {
 		add("network", "config-says-collateral+crl/flag-turns-collateral-off", "outofdate", 1, -1, false, append([]string{"-in", qf, "-config", cf, "-get_collateral=false"}, tmo...)...)
 		add("network", "config-says-collateral+crl/flags-turn-both-off", "outofdate", 0, -1, true, append([]string{"-in", qf, "-config", cf, "-get_collateral=false", "-check_crl=false"}, tmo...)...)
 		add("network", "config-says-collateral+crl/proxy-dead", "dead", 3, -1, false, append([]string{"-in", qf, "-config", cf}, tmo...)...)
+		// the roots given by flag as well: what the configuration says about collateral and revocation still stands
+		add("network", "config-says-collateral+crl/roots-by-flag/honest", "honest", 0, -1, true, append([]string{"-in", qf, "-config", cf, "-trusted_roots", rootf}, tmo...)...)
+		add("network", "config-says-collateral+crl/roots-by-flag/crl-endpoints-down", "crl-down", 3, -1, false, append([]string{"-in", qf, "-config", cf, "-trusted_roots", rootf}, tmo...)...)
+		add("network", "config-says-collateral+crl/roots-by-flag/outofdate", "outofdate", 2, -1, false, append([]string{"-in", qf, "-config", cf, "-trusted_roots", rootf}, tmo...)...)
+		add("network", "config-says-collateral+crl/roots-by-flag/proxy-dead", "dead", 3, -1, false, append([]string{"-in", qf, "-config", cf, "-trusted_roots=" + rootf}, tmo...)...)
+		cfgCrlOnly := &ccpb.Config{RootOfTrust: &ccpb.RootOfTrust{CheckCrl: true}}
+		bc, _ := proto.Marshal(cfgCrlOnly)
+		cfc := write("crl-only.bin", bc)
+		add("network", "config-says-crl-without-collateral/roots-by-flag", "honest", 1, -1, false, append([]string{"-in", qf, "-config", cfc, "-trusted_roots", rootf}, tmo...)...)
 	}
 	// ---- the tool judges "now" (it has no flag for the time): the verdict is about instants, whatever time zone the process
 	//      runs in. A leaf that expired two hours ago is refused, one that expires in two hours is accepted, in every zone.
@@ -977,7 +1019,7 @@ func c19(x *mon.Ctx) {
 			}
 		}
 	}
-	x.Require("baseline", 1, 3, 4)
+	x.Require("baseline", 1, 12, 13)
 	x.Require("stdin-kind", 12, 9, 21)
 	x.Require("relative-paths", 12, 6, 18)
 	x.Require("network", 5, 12, 20)
